@@ -82,7 +82,8 @@ class C20:
             rast = call.term
             tr = ("attr", rast, "T")
             tr2 = ("call", ("attr", rast, "transpose"), (), ())
-            good = (data in (tr, tr2) and dims == ("tuple", (xdim, ydim))) or (data == rast and dims == ("tuple", (ydim, xdim)))
+            tr3 = ("call", ("ext", "numpy.transpose"), (rast,), ())
+            good = (data in (tr, tr2, tr3) and dims == ("tuple", (xdim, ydim))) or (data == rast and dims == ("tuple", (ydim, xdim)))
             cgood = coords is not None and coords[0] == "dict" and dict(coords[1]) == {xdim: ("sub", ("attr", arr, "coords"), xdim), ydim: ("sub", ("attr", arr, "coords"), ydim)}
             if good and cgood:
                 ctx.ok("R20.2", site, "output = raster transposed, dims (xdim, ydim), template coordinates")
@@ -167,6 +168,10 @@ class C20:
         # ---- R20.5 order & forwarding
         conv = ("global", f"{CONV}:geometry_to_shapely", "func")
         order_ok = False
+        if shapes is not None and shapes[0] == "call" and shapes[1] in (("builtin", "list"), ("builtin", "tuple")) and len(shapes[2]) == 1 \
+                and shapes[2][0][0] == "call" and shapes[2][0][1] == ("builtin", "zip") and len(shapes[2][0][2]) == 2:
+            # list(zip(a, b)) is [(x, y) for x, y in zip(a, b)]
+            shapes = ("comp", "list", ("tuple", (("sub", ("elem", "Z"), ("const", 0)), ("sub", ("elem", "Z"), ("const", 1)))), (("Z", shapes[2][0], ()),))
         if shapes is not None and shapes[0] == "comp" and len(shapes[3]) == 1 and not shapes[3][0][2]:
             it = shapes[3][0][1]
             e = ("elem", shapes[3][0][0])
